@@ -27,9 +27,41 @@ import (
 const rt = `// Package verifrt is injected by /verif's build overlay; it does not exist in the repository.
 package verifrt
 
+import (
+	"bytes"
+	"sort"
+)
+
 // Hook, when set, is called before every instrumented lock acquisition with a
 // probe that reports whether the lock could be taken right now.
 var Hook func(try func() bool, site string)
+
+// MapOrder, when set, lets the simulator choose the order in which SortedKeys20 hands out the keys of
+// a map (a permutation of 0..n-1); otherwise the keys come sorted. Either way the order no longer
+// depends on the runtime's map iteration.
+var MapOrder func(n int) []int
+
+func SortedKeys20[K ~[20]byte, V any](m map[K]V) []K {
+	keys := make([]K, 0, len(m))
+	for k := range m {
+		keys = append(keys, k)
+	}
+	sort.Slice(keys, func(i, j int) bool {
+		a, b := [20]byte(keys[i]), [20]byte(keys[j])
+		return bytes.Compare(a[:], b[:]) < 0
+	})
+	if h := MapOrder; h != nil {
+		p := h(len(keys))
+		if len(p) == len(keys) {
+			out := make([]K, len(keys))
+			for i, j := range p {
+				out[i] = keys[j]
+			}
+			return out
+		}
+	}
+	return keys
+}
 
 func BeforeLock(try func() bool, site string) {
 	if h := Hook; h != nil {
@@ -48,6 +80,7 @@ func main() {
 	repo := flag.String("repo", "/repo", "repository root")
 	out := flag.String("out", "", "output directory")
 	shims := flag.String("shims", "", "directory of shim files to add to repository packages")
+	seams := flag.String("seams", "", "directory of core seams (*.seam) applied in every build")
 	flag.Parse()
 	targets := flag.Args()
 	if *out == "" || len(targets) == 0 {
@@ -142,6 +175,42 @@ func main() {
 		}
 		replace[f] = dst
 		sites += n
+	}
+	// core seams: <seams>/*.seam, same format, applied in every build; a seam whose text is not found exactly
+	// once (the tree under test changed that spot) is skipped with a note
+	if *seams != "" {
+		ents, _ := os.ReadDir(*seams)
+		for _, e := range ents {
+			if e.IsDir() || !strings.HasSuffix(e.Name(), ".seam") {
+				continue
+			}
+			raw, err := os.ReadFile(filepath.Join(*seams, e.Name()))
+			if err != nil {
+				continue
+			}
+			var sm struct{ File, Old, New string }
+			if json.Unmarshal(raw, &sm) != nil {
+				fmt.Fprintf(os.Stderr, "seam-skipped: %s does not parse\n", e.Name())
+				continue
+			}
+			target := filepath.Join(*repo, sm.File)
+			srcPath := target
+			if r, ok := replace[target]; ok {
+				srcPath = r
+			}
+			src, err := os.ReadFile(srcPath)
+			if err != nil || strings.Count(string(src), sm.Old) != 1 {
+				fmt.Fprintf(os.Stderr, "seam-skipped: %s: text not found exactly once in %s\n", e.Name(), sm.File)
+				continue
+			}
+			dst := filepath.Join(*out, strings.ReplaceAll(sm.File, "/", "__"))
+			if err := os.WriteFile(dst, []byte(strings.Replace(string(src), sm.Old, sm.New, 1)), 0o644); err != nil {
+				fmt.Fprintln(os.Stderr, err)
+				os.Exit(2)
+			}
+			replace[target] = dst
+			fmt.Fprintf(os.Stderr, "seam-applied: %s\n", e.Name())
+		}
 	}
 	// optional seams: <shims>/*.seam = {"file","old","new"}: one exact textual replacement in a repository file
 	if *shims != "" {
